@@ -150,6 +150,50 @@ func checkC15(w *World, c *Check, tier string) {
 		}
 	}
 
+	// ---- IRI consults Of: "the helper yields the explicitly set collection when present" — for every non-nil object,
+	// whatever its id: only nil-ness and object-ness of the item may stand between CollectionPath.IRI and its lookup ----
+	if irif := w.Method("CollectionPath", "IRI"); irif != nil {
+		ofm := w.Method("CollectionPath", "Of")
+		nOf := 0
+		for _, call := range callsIn(irif) {
+			if call.Common().StaticCallee() != ofm || ofm == nil {
+				continue
+			}
+			nOf++
+			bad := ""
+			for _, g := range rawGuards(call.Block()) {
+				for _, dj := range disjuncts(g.cond, 0) {
+					if n, isNot := dj.(*ssa.UnOp); isNot && n.Op == token.NOT {
+						dj = n.X
+					}
+					ok := false
+					switch x := dj.(type) {
+					case *ssa.Call:
+						if cal := x.Common().StaticCallee(); cal != nil && (cal.Name() == "IsNil" || cal.Name() == "IsObject" || cal.Name() == "IsNotNil") {
+							ok = true
+						}
+						if x.Common().IsInvoke() && x.Common().Method.Name() == "IsObject" {
+							ok = true
+						}
+					case *ssa.BinOp:
+						ok = isNilConst(x.X) || isNilConst(x.Y)
+					}
+					if !ok {
+						bad = shortVal(dj)
+					}
+				}
+			}
+			if bad != "" {
+				c.bad("C15.build", "IRI-consults-Of", w.InstrPos(call), fmt.Sprintf("CollectionPath.IRI looks the explicit collection up only under the additional condition %s: an object that fails it (one without an id) gets the built path even though it carries an explicit collection, and IRI() disagrees with Of()", bad))
+			} else {
+				c.ok("C15.build", "IRI-consults-Of", w.InstrPos(call), "every non-nil object is looked up")
+			}
+		}
+		if nOf == 0 {
+			c.bad("C15.build", "IRI-consults-Of", w.FuncPos(irif), "CollectionPath.IRI no longer consults Of for an explicitly set collection")
+		}
+	}
+
 	// ---- path representation: what Split writes back into URL.Path comes from URL.Path itself ----
 	if sp := w.Method("CollectionPaths", "Split"); sp != nil {
 		for _, f := range w.Reach([]*ssa.Function{sp}, nil) {
